@@ -29,7 +29,8 @@ CHECKS = {
             'C10_seqset, C10_store_refines, C10_expunge_refines, C10_append_refines, C10_permitted are proved in Lean (implementation model refines PymapSpec/Imap.lean for every view, set and flag list). '
             'Tie: single-session programs, real dict server vs Lean Server model per command; SequenceSet.flatten vs Seq.flatten. Monitor: an independent Python reference model stepped on dict, maildir(++), '
             'maildir(fs) with a full probe dump after every command.',
-            'Trusted: as C01. COPY/MOVE/FETCH-seen/CLOSE are in the executable model and the reference monitor but their refinement lemmas are not yet proved in Lean.',
+            'C10_copy_refines, C10_copy_uids, C10_move_refines (COPY/MOVE refine the reference spec), C10_server_copyMove/_copy_spec/_expunge (the command-level Server model the tie runs is literally these functions) are proved too; '
+            'a third of the programs run two sessions addressing by explicit UIDs (stale caches). Trusted: as C01. The refinement of FETCH-sets-\\Seen and CLOSE is in the executable model and the reference monitor, not proved.',
             'DESIGN.md section 6 C10'),
     'C04': ('Lean 4 invariant by induction over mailbox operations (UID monotonicity, UIDNEXT, APPENDUID/COPYUID pairing) + differential correspondence + history monitor',
             'C04_uid_monotone (any operation list, incl. expunge-highest-then-append), C04_uidnext, C04_appenduid, C04_copyuid_pairing and C15_recover (maildir adoption hands out fresh UIDs only) are proved in Lean. '
@@ -56,7 +57,8 @@ CHECKS = {
             'Trusted: Lean kernel, axioms propext/Classical.choice/Quot.sound, the harness; backend outcomes of each concrete command are supplied by the fixture (which credentials/mailboxes exist).',
             'DESIGN.md section 6 C05'),
     'C09': ('Lean 4 theorems (soundness of authentication as an invariant over command sequences) + differential correspondence + credential fuzzing',
-            'C09_sound (authenticated as u only if an attempt presented credentials the backend accepted for u), C09_no_reauth, C09_logindisabled, C09_failed_keeps are proved in Lean for every command sequence. '
+            'C09_sound (authenticated as u only if an attempt presented credentials the backend accepted for u), C09_no_reauth, C09_logindisabled, C09_failed_keeps, C09_advertised_enforced and C09_login_accepted_was_offered (the LOGINDISABLED bit of the '
+            'capability list the client holds - greeting included - is the bit the state machine acts on) are proved in Lean for every command sequence. '
             'Tie: the C05 machinery with an alphabet of every way to present credentials (LOGIN, PLAIN, LOGIN mech, authzid with/without admin role, cancel, malformed base64, unknown mechanism) in three TLS/peer '
             'configurations, identity observed through LIST; random credential byte strings never authenticate; the ManageSieve listener is driven with failed/successful AUTHENTICATE sequences against the Sieve model.',
             'Trusted: as C05. Credential verification (pysasl, password hashing) is an oracle: which credentials verify is known to the fixture, not modelled. TLS is a stub.',
@@ -71,7 +73,7 @@ CHECKS = {
             'C11_star_all, C11_pct, C11_literal (incl. names with LF), C11_list, C11_inbox_guard, C11_errors_unchanged, C11_conflicts, C11_rename (objects move with their ids), C11_rename_inbox (inferiors of INBOX stay) are proved in Lean. '
             'Tie: OK/NO of every CREATE/DELETE/RENAME and the exact LIST entry set are diffed between the real dict server and the Namespace model; the compiled LIST pattern is diffed with Namespace.wild on short pattern/name pairs '
             '(exhaustive in the thorough tier). Monitor on dict and both maildir layouts: existence is re-established by EXAMINE over the whole name universe after every command; LIST, conflicts, guards, rename identity '
-            '(UIDVALIDITY/UIDNEXT/messages) and modified-UTF-7 spelling are checked against an RFC matcher written from the RFC.',
+            '(UIDVALIDITY/UIDNEXT/messages) and modified-UTF-7 spelling are checked against an RFC matcher written from the RFC. C11_dp_matches: the position-set matcher of the repaired ListTree (Namespace.wildDP, what the L1 tie runs) equals the recursive semantics.',
             'Trusted: Lean kernel, axioms propext/Classical.choice/Quot.sound, the harness; Python re engine (pinned by the L1 diff). Known findings D28 (LSUB), D17b (maildir RENAME INBOX), D40 (Inbox/x superior). '
             'Which superiors CREATE makes real and whether DELETE of a parent is refused are backend-specific and left free.',
             'DESIGN.md section 6 C11'),
@@ -83,20 +85,21 @@ CHECKS = {
             'Trusted: as C11; lexical model only: no symlinks inside the store, no mount points, case-sensitive filesystem; the recorder sees Python-level calls (os, shutil, open), which is all pymap and the mailbox module use.',
             'DESIGN.md section 6 C08'),
     'C13': ('Lean 4 theorems (every key equals its RFC meaning, prefilter soundness, exactness, UID equivalence, algebraic laws) + differential correspondence + independent evaluator',
-            'crit_iff, C13_prefilter_sound, C13_exact, C13_uid_equiv, C13_algebra are proved in Lean for every view, key tree and message (string keys as oracles). Tie: SEARCH/UID SEARCH results of the real server '
+            'crit_iff, C13_prefilter_sound, C13_exact, C13_uid_equiv, C13_algebra, C13_set_semantics (the frozenset of top-level keys: order and repetition are immaterial) are proved in Lean for every view, key tree and message (string keys as oracles). Tie: SEARCH/UID SEARCH results of the real server '
             'are diffed with Search.search on random mailboxes x random key trees; an independent Python evaluator of RFC 3501 6.4.4 over the stored bytes is the monitor and supplies the oracle bits; equivalent '
             'rewritings and views with hidden expunged messages are exercised.',
             'Trusted: Lean kernel, axioms propext/Classical.choice/Quot.sound, the harness. String matching (email package, re) is an oracle of the model; messages are plain ASCII so that "contains" is unambiguous.',
             'DESIGN.md section 6 C13'),
     'C18': ('Lean 4 round-trip theorems (quoted strings, modified UTF-7 for all Unicode scalar values) + L1 differential correspondence + spelling-equivalence monitor on the wire',
-            'C18_roundtrip_quoted (parse(ser v ++ rest) = (v, rest)), C18_modutf7 (decode(encode s) = s for every list of scalar values), C18_encode_ascii are proved in Lean. Tie: QuotedString/String.build/modutf7_encode/decode '
+            'C18_roundtrip_quoted (parse(ser v ++ rest) = (v, rest)), C18_roundtrip_number, C18_modutf7 (decode(encode s) = s for every list of scalar values), C18_encode_ascii, C18_framing (whatever the {n+} literals contain, the reader takes exactly the command) are proved in Lean. '
+            'Tie: IMAPConnection.readline vs Framing.readCmd on hostile streams; QuotedString/String.build/modutf7_encode/decode '
             'vs the Wire and ModUtf7 models on hostile values. Monitors: round trips of literals, astrings, numbers, sequence sets, flags, date-times through the real parsers; an independent RFC 3501 5.1.3 encoder; whole command '
             'programs replayed under random spellings (atom/quoted/{n}/{n+}, command-word case) must answer and leave state identically; LIST reports names that decode to the created names.',
             'Trusted: as C13. The lenient utf-7 decoder of Python on non-canonical input is not modelled (one-sided correspondence). Parsers of numbers/sets/flags/dates have no Lean model yet (monitored only).',
             'DESIGN.md section 6 C18'),
     'C07': ('Lean 4 theorem that every serialised response shape is accepted by an independent strict recogniser + twin-recogniser correspondence + output monitor',
             'C07_wellformed (every line built from atoms, String.build values and nested groups is accepted by Grammar.wf, by mutual induction with a fuel-independence lemma), C07_build_safe, C07_quoted_escape, C18_encode_ascii '
-            'are proved in Lean. Tie: the Python recogniser used as the monitor is diffed with Grammar.wf on all server outputs of the run and on mutations of them; String.build vs Wire.buildString on hostile values. Monitor: every byte '
+            'and C07_envelope / C07_body (what is written for any part tree, any address counts, with or without disposition/language/location is an envelope / body of RFC 3501 section 9) are proved in Lean. Tie: the Python recognisers used as monitors are diffed with Grammar.wf and with Structure.isEnvelope/isBody on all server outputs of the run and on damaged copies of them; String.build vs Wire.buildString on hostile values. Monitor: every byte '
             'the real server writes in scenario families that echo client data (names, keywords, tags, headers through ENVELOPE/BODYSTRUCTURE, MIME shapes, error paths, SASL exchanges) on dict and maildir must be accepted.',
             'Trusted: as C13. The mapping of each pymap response class onto the Item shape of the theorem is exercised by the monitor, not proved. Known finding D47 (BINARY fetch of undecodable part breaks off mid-line).',
             'DESIGN.md section 6 C07'),
@@ -111,7 +114,7 @@ CHECKS = {
             'Tie: pymap\'s real asyncio read-write lock under a deterministic scheduler; every step of every explored schedule (DFS over all schedules with at most one cancellation of all 2-task programs, thorough 3-task; random for 4) is replayed '
             'in the model and who-is-inside/waiting/finished plus the counter compared. Monitors: no overlap with a writer, drainable (no deadlock), usable and counter 0 afterwards; FileLock writers with yields, exceptions, cancellations, stale files.',
             'Trusted: Lean kernel, axioms propext/Classical.choice/Quot.sound, the harness. asyncio.Lock semantics (CPython 3.12) are modelled, validated by the correspondence, not proved; C20_no_deadlock is explored, not proved; threading twin not modelled; '
-            'FileLock has no model-vs-code replay (monitor only) and rests on O_EXCL.',
+            'FileLock: the recorded _try_lock/_unlock steps of every run are replayed through the FileLock model (only a holder ever unlocks); it rests on O_EXCL. with_write (maildir control files) is monitored: lock file gone the moment the section is left.',
             'DESIGN.md section 6 C20'),
     'C16': ('Lean 4 safety invariant and bounded-progress theorem over the IDLE wake-up transition system + scheduler-driven correspondence on the real connection',
             'C16_no_lost_wakeup (parked on an unfired listener implies everything consumed) and C16_progress (from any reachable state at most 6 own steps deliver everything) are proved for the repaired wait; C16_lost_wakeup_as_found is the decide-checked '
@@ -123,7 +126,7 @@ CHECKS = {
             'C14_conservation (a message being moved is in source or destination in every reachable state, any cancellation point, other sessions active), C14_move_loses_as_found (decide), C14_multiappend_atomic_full_false/_partial (known finding D21) '
             'are proved. Tie: single-message MOVE runs on the real dict backend, parked at every lock acquisition, replayed as Faults labels and (in source, in destination) compared. Monitor: MOVE/COPY/EXPUNGE/APPEND(1-3) cut at EVERY park point by '
             'cancellation and by an exception from the n-th storage call, with a second session interleaved; probe dumps at every park point and at the end (conservation, exactly-one after OK, NO/BAD changes nothing, multi-APPEND atomicity).',
-            'Trusted: as C20. Partial: dict backend only (maildir process kill is C15); multi-message MOVE is monitored, the model is per message. Known finding D21.',
+            'Trusted: as C20. The maildir leg kills a child process at every filesystem-operation boundary of MOVE/COPY histories (C15 machinery, conservation judged); uncontended cancellation k loop turns into each command; multi-message MOVE is monitored, the model is per message. Known finding D21.',
             'DESIGN.md section 6 C14'),
     'C15': ('Lean 4 theorems over an abstract maildir filesystem (every prefix of every command\'s system calls, any history) + exhaustive crash-point enumeration in a child process',
             'C15_prefix, C15_full, C15_recover, C15_crash_anywhere are proved: after any history and a crash at any system-call boundary, recovery keeps every acknowledged message under its UID, the UID list duplicate-free, next-UID monotone, UIDVALIDITY unchanged. '
